@@ -47,6 +47,24 @@ func (t tasks) Remove(task *taskInfo) tasks {
 	return t
 }
 
+// drop removes task from the list, found by identity: the Index field is the position at the time
+// the list was built and goes stale as soon as an entry has been removed or the list was sorted
+func (t tasks) drop(task *taskInfo) tasks {
+	for i, x := range t {
+		if x == task {
+			return append(t[:i], t[i+1:]...)
+		}
+	}
+	return t
+}
+
+// clone returns a list with its own backing array (the entries themselves are shared)
+func (t tasks) clone() tasks {
+	c := make(tasks, len(t))
+	copy(c, t)
+	return c
+}
+
 func (t tasks) Sort() tasks {
 	sort.Sort(t)
 	return t
